@@ -46,15 +46,11 @@ def operand_shapes() -> List[Tuple[str, Str, Optional[str], bool]]:
 
 
 def normalise(I: Interp, operand: Str) -> List[Tuple[str, str]]:
-    """outcomes of OperandsParser._process_operand_elem on the template: ('return', rendered) / ('raise', type)"""
-    op = I.p.find_class("OperandsParser")
-    m = op.find_method("_process_operand_elem")
-    if m is None:
-        raise AnalysisError("anchor OperandsParser._process_operand_elem not found")
+    """outcomes of the operand normaliser (OperandsParser.parse on a one-operand list) on the template: ('return', rendered) / ('raise', type)"""
+    from .normflow import normalise_one
 
     def thunk(I: Interp) -> Value:
-        o = I.construct(op, [ListV([operand])], {}, None, None)
-        return I.call_func(m, [], {"operand_elem": operand}, o, None, None)
+        return normalise_one(I, operand)
     out = set()
     for path in I.explore(thunk):
         if path.kind == "return":
@@ -200,8 +196,8 @@ def deref_end_to_end(ctx, I: Interp, rule_match: str, rule_reject: str) -> int:
     op = I.p.find_class("OperandsParser")
 
     def normal_form(t: Str) -> Optional[Str]:
-        paths = I.explore(lambda I, t=t: I.call_func(op.find_method("_process_operand_elem"), [], {"operand_elem": t},
-                                                      I.construct(op, [ListV([t])], {}, None, None), None, None))
+        from .normflow import normalise_one
+        paths = I.explore(lambda I, t=t: normalise_one(I, t))
         vals = [p.value for p in paths]
         if len(paths) != 1 or paths[0].kind != "return" or not isinstance(vals[0], Str):
             return None
@@ -300,7 +296,7 @@ def normal_form_rule(ctx, I: Interp, rule: str, listed_only: bool = True) -> int
             continue
         outs = normalise(I, tpl)
         n += 1
-        ctx.check(outs == [("return", expect)], rule, f"OperandsParser._process_operand_elem[{label}: {tpl.render()}]",
+        ctx.check(outs == [("return", expect)], rule, f"OperandsParser.parse (one operand)[{label}: {tpl.render()}]",
                   f"gives {outs}"[:200], f"the AT&T operand {tpl.render()} reaches patterns as {expect}, on every path")
     return n
 
@@ -360,7 +356,7 @@ def parser_total_rule(ctx, I: Interp, rule: str) -> int:
         outs = normalise(I, tpl)
         raises = sorted({t for k, t in outs if k == "raise"})
         n += 1
-        ctx.check(not raises, rule, f"OperandsParser._process_operand_elem[{label}]", f"raises {','.join(raises)} on {tpl.render()}"[:160],
+        ctx.check(not raises, rule, f"OperandsParser.parse (one operand)[{label}]", f"raises {','.join(raises)} on {tpl.render()}"[:160],
                   f"the operand {tpl.render()} (printed by objdump) does not make the parser fail")
     return n
 
